@@ -76,6 +76,15 @@ def r14_1(ctx, g):
     for k, v in zip(cases.value.keys, cases.value.values):
         kk = tuple(const_value(e) for e in k.elts) if isinstance(k, ast.Tuple) else None
         vv = tuple(const_value(e) for e in v.elts) if isinstance(v, ast.Tuple) else None
+        if vv is None and isinstance(v, ast.Call) and isinstance(v.func, ast.Name):
+            # a row built by a module-level namedtuple: its fields in declaration order
+            d_ = pe.module.consts.get(v.func.id)
+            if isinstance(d_, ast.Call) and norm(d_.func).endswith("namedtuple") and len(d_.args) >= 2 and isinstance(d_.args[1], (ast.List, ast.Tuple)):
+                flds = [const_value(x) for x in d_.args[1].elts]
+                vals = dict(zip(flds, v.args))
+                vals.update({k_.arg: k_.value for k_ in v.keywords if k_.arg})
+                if all(f_ in vals for f_ in flds):
+                    vv = tuple(const_value(vals[f_]) for f_ in flds)
         tbl[kk] = vv
     to_dir = {">": "+", "<": "-"}
     bad = None
@@ -87,15 +96,71 @@ def r14_1(ctx, g):
             if got != want:
                 bad = {"step": f"{s1}x{s2}y", "looks_in": got, "link_is_stored_in": want}
     ctx.check(bad is None, "R14.1", pe.where(cases), "walk table = link table: a step x->y with orientations (o1,o2) is looked up in the adjacency set and far side where add_edge stores the link `x o1 y o2` (all four rows, derived from E_DIR)", key_of(pe, f"walk-table:{bad}"), rows=4, **({"witness": bad} if bad else {}))
-    # how the table is used
+    # how the table is used: names are looked through (temporaries, unpacked rows), so only roles matter
     cname = norm(cases.targets[0])
-    uses_ok = False
-    loop = [l for l in pe.node.body if isinstance(l, ast.For)]
-    src = norm(loop[0]) if loop else ""
-    uses_ok = f"{cname}[n1[0], n2[0]]" in src.replace("(", "").replace(")", "") or f"{cname}[(n1[0], n2[0])]" in src
-    look = [c for c in walk_own(pe.node) if isinstance(c, ast.Call) and norm(c.func) == "getattr"]
-    ok_get = len(look) == 1 and norm(look[0].args[0]).endswith("[n1[1:]]") and norm(look[0].args[1]).endswith("[0]")
-    cmp_ok = any(isinstance(c, ast.Compare) and norm(c).replace(" ", "") in ("(n2[1:],case[1])==(edge[0],edge[1])", "(edge[0],edge[1])==(n2[1:],case[1])") for c in walk_own(pe.node))
+    ppar = pe.params[1]
+    pair_loops = [l for l in pe.node.body if isinstance(l, ast.For)]
+    uses_ok = ok_get = cmp_ok = False
+    if pair_loops:
+        pl0 = pair_loops[0]
+        env = {}
+        prev = cur = None
+        if isinstance(pl0.iter, ast.Call) and norm(pl0.iter.func) == "zip" and isinstance(pl0.target, ast.Tuple) and len(pl0.target.elts) == 2:
+            prev, cur = norm(pl0.target.elts[0]), norm(pl0.target.elts[1])
+        elif isinstance(pl0.target, ast.Name):
+            prev, cur = f"{ppar}[{pl0.target.id} - 1]", f"{ppar}[{pl0.target.id}]"
+        for st in walk_stmts(pl0.body):
+            if isinstance(st, ast.Assign) and len(st.targets) == 1:
+                t = st.targets[0]
+                if isinstance(t, ast.Name):
+                    env.setdefault(t.id, []).append(st.value)
+                elif isinstance(t, ast.Tuple) and all(isinstance(e, ast.Name) for e in t.elts) and isinstance(st.value, (ast.Subscript, ast.Name)):
+                    for k_, e in enumerate(t.elts):
+                        env.setdefault(e.id, []).append(ast.Subscript(value=st.value, slice=ast.Constant(value=k_), ctx=ast.Load()))
+        env = {k_: v[0] for k_, v in env.items() if len(v) == 1}
+
+        import copy as _copy
+
+        class _R(ast.NodeTransformer):
+            def visit_Name(self, n):
+                if isinstance(n.ctx, ast.Load) and n.id in env:
+                    return _copy.deepcopy(env[n.id])
+                return n
+
+        def res(e):
+            e = _copy.deepcopy(e)
+            for _ in range(4):
+                e2 = _R().visit(_copy.deepcopy(e))
+                if ast.dump(e2) == ast.dump(e):
+                    break
+                e = e2
+            return norm(ast.fix_missing_locations(e)).replace("self.nodes[", "self[")
+
+        row = f"{cname}[{prev}[0], {cur}[0]]"
+        src_all = [res(x) for x in walk_own(pl0) if isinstance(x, (ast.Subscript,)) and norm(x.value) == cname]
+        uses_ok = any(t.replace("(", "").replace(")", "") == row for t in src_all)
+        look = [c for c in walk_own(pl0) if isinstance(c, ast.Call) and norm(c.func) == "getattr" and len(c.args) == 2]
+        ok_get = len(look) == 1 and res(look[0].args[0]) == f"self[{prev}[1:]]" and res(look[0].args[1]).replace("(", "").replace(")", "") == row + "[0]"
+        # the filter: (current id, far side of the row) against (entry[0], entry[1]) of the adjacency entries iterated
+        evars = set()
+        for n_ in walk_own(pl0):
+            if isinstance(n_, (ast.For, ast.comprehension)) and look and (any(x is look[0] for x in ast.walk(n_.iter)) or res(n_.iter) == res(look[0])):
+                evars.add(norm(n_.target))
+        for c in walk_own(pl0):
+            eqs = []
+            conj = c.values if isinstance(c, ast.BoolOp) and isinstance(c.op, ast.And) else [c]
+            for q in conj:
+                if isinstance(q, ast.Compare) and len(q.ops) == 1 and isinstance(q.ops[0], ast.Eq):
+                    l_, r_ = q.left, q.comparators[0]
+                    if isinstance(l_, ast.Tuple) and isinstance(r_, ast.Tuple) and len(l_.elts) == len(r_.elts):
+                        eqs += [(res(a), res(b)) for a, b in zip(l_.elts, r_.elts)]
+                    else:
+                        eqs.append((res(l_), res(r_)))
+            eqs = [tuple(t.replace("(", "").replace(")", "") for t in pr) for pr in eqs]
+            for ev_ in evars:
+                want = {frozenset((f"{ev_}[0]", f"{cur}[1:]")), frozenset((f"{ev_}[1]", row + "[1]"))}
+                if want <= {frozenset(pr) for pr in eqs}:
+                    cmp_ok = True
     ctx.check(uses_ok and ok_get and cmp_ok, "R14.1", pe.where(), "the table row is selected by the orientation characters of the two steps; the set of the previous node named by the row is searched for (next node id, far side of the row)", key_of(pe, f"table-use:{uses_ok}:{ok_get}:{cmp_ok}"))
     # every consecutive pair is checked
     rng = [l for l in pe.node.body if isinstance(l, ast.For) and isinstance(l.iter, ast.Call) and norm(l.iter.func) == "range"]
@@ -119,7 +184,18 @@ def r14_1(ctx, g):
                 # or the acceptance must come from the comparison itself
                 flags_true = [e for e in p.events if e.kind == "stmt" and isinstance(e.node, ast.Assign) and const_value(e.node.value, 0) is True]
                 flags_false = [e for e in p.events if e.kind == "stmt" and isinstance(e.node, ast.Assign) and const_value(e.node.value, 1) is False]
-                matched = any(e.kind == "test" and canon_test(e.node, e.pol)[1] and "[0]" in norm(e.node) and "[1]" in norm(e.node) and "==" in norm(e.node) for e in p.events)
+                def _truthy_match(e):
+                    if e.kind != "test":
+                        return False
+                    t_, pol_ = e.node, e.pol
+                    while isinstance(t_, ast.UnaryOp) and isinstance(t_.op, ast.Not):
+                        t_, pol_ = t_.operand, not pol_
+                    if isinstance(t_, ast.Call) and isinstance(t_.func, ast.Name) and t_.func.id in ("len", "bool", "any", "list") and t_.args:
+                        pass
+                    txt = res(t_) if pair_loops else norm(t_)
+                    return bool(pol_) and "[0]" in txt and "[1]" in txt and "==" in txt
+
+                matched = any(_truthy_match(e) for e in p.events)
                 if not matched:
                     badp = (p, "a pair of steps is accepted on a path on which no link of this pair matched")
                     break
@@ -194,6 +270,9 @@ def r14_2_3(ctx, g):
     paths = enum_paths(loop.body, rule="R14.2", where=ep.where(loop))
     bad = None
     seen = set()
+    from ..core import make_resolver
+
+    res_ = make_resolver(loop.body)  # temporaries of the step loop (node_id = n[1:]) are looked through
     for p in paths:
         apps = [e.node.value for e in p.events if e.kind == "stmt" and isinstance(e.node, ast.Expr) and isinstance(e.node.value, ast.Call) and isinstance(e.node.value.func, ast.Attribute) and e.node.value.func.attr == "append"]
         fwd = any(canon_test(t, pol) == (f"{n}.startswith('>')", True) or canon_test(t, pol) == (f"{n}[0] == '>'", True) for t, pol in p.tests())
@@ -205,7 +284,7 @@ def r14_2_3(ctx, g):
         if len(apps) != 1:
             bad = (p, f"{len(apps)} pieces appended for one step")
             break
-        a = norm(apps[0].args[0])
+        a = norm(res_(apps[0].args[0]))
         not_fwd = any(canon_test(t, pol) in ((f"{n}.startswith('>')", False), (f"{n}[0] == '>'", False)) for t, pol in p.tests())
         not_rev = any(canon_test(t, pol) in ((f"{n}.startswith('<')", False), (f"{n}[0] == '<'", False)) for t, pol in p.tests())
         if two_signs_only and not fwd and not rev:
@@ -220,7 +299,7 @@ def r14_2_3(ctx, g):
                 bad = (p, f"'>' step appends `{a}`")
         elif rev:
             seen.add("<")
-            ok = isinstance(apps[0].args[0], ast.Call) and repo.resolve_call(ep, apps[0].args[0]) is not None and repo.resolve_call(ep, apps[0].args[0]).name == "rev_comp" and norm(apps[0].args[0].args[0]) in (f"self.nodes[{n}[1:]].seq", f"self[{n}[1:]].seq")
+            ok = isinstance(apps[0].args[0], ast.Call) and repo.resolve_call(ep, apps[0].args[0]) is not None and repo.resolve_call(ep, apps[0].args[0]).name == "rev_comp" and norm(res_(apps[0].args[0].args[0])) in (f"self.nodes[{n}[1:]].seq", f"self[{n}[1:]].seq")
             if not ok:
                 bad = (p, f"'<' step appends `{a}`")
         else:
